@@ -214,6 +214,18 @@ theorem C06_value_fold_collides {κ : Type} (op : κ → κ → κ) (comm : ∀ 
   haveI : Std.Commutative op := ⟨comm⟩
   ac_rfl
 
+/-- the configurations of the examples have well-formed property values (hypothesis of the
+    theorems about the dump model) -/
+example : cfgA.WF ∧ cfgB.WF := by
+  constructor <;>
+  · intro n v h
+    simp only [Config.get, cfgA, cfgB, lookup_cons_eq, List.lookup_nil] at h
+    split at h
+    · cases h; simp [J.WF]
+    · split at h
+      · cases h; simp [J.WF]
+      · simp at h
+
 /-- … and an added `verbose` satisfies the hypotheses of C06_deterministic -/
 example : (∀ n ∈ hashedNames, cfgA.get n = cfgA'.get n) ∧ cfgA.src = cfgA'.src := by
   refine ⟨fun n hn => ?_, rfl⟩
